@@ -356,6 +356,12 @@ def gen_sig(r):
     expect = {}
     feats = []
     names = iter('abcdefgh')
+    kn = r.random()
+    if kn < 0.2:
+        # names that are the concatenation of two names other signatures use side by side ('ab c' next to 'a b c': only the blank tells
+        # them apart)
+        names = iter([['ab', 'c', 'd', 'e', 'f', 'g', 'h', 'i'], ['a', 'bc', 'd', 'e', 'f', 'g', 'h', 'i'], ['abc', 'd', 'e', 'f', 'g', 'h', 'i', 'j']][int(kn * 15)])
+        feats.append('names-that-concatenate-other-names')
     if r.random() < 0.3:
         sig.append('*')
         if r.random() < 0.5:
